@@ -51,19 +51,29 @@ theorem mixed_enum_membership_json (c : GoTy) (vals : List Json) (d : Json) (ic 
   cases d <;> cases v <;> simp_all [enumEq, jsonToIface, BEq.beq, Json.beq] <;>
     exact ⟨fun h => h.symm, fun h => h.symm⟩
 
-/-- an accepted value of a struct-wrapped enum marshals back to the bare JSON value (MarshalJSON of the wrapper) -/
+/-- an accepted value of a struct-wrapped enum, where it is ADDRESSABLE (everywhere except below a map value),
+    marshals back to the bare JSON value (MarshalJSON of the wrapper) -/
 theorem wrapped_marshal_roundtrip (env : Env) (n : String) (d : Decl) (j : Json) (f : Nat)
     (hres : env.resolve 8 n = some d) (vals : List Json) (ic : Bool) (cs : List (String × String)) (m : Bool)
     (hb : d.body = .enum vals true ic cs m) (hj : j ≠ .null) :
-    marshal env (f + 2) (.named n) (.strct [("Value", jsonToIface j)]) = j := by
+    marshal env (f + 2) true (.named n) (.strct [("Value", jsonToIface j)]) = j := by
+  simp only [marshal, hres, hb]
+  cases j <;> simp_all [jsonToIface, marshal]
+
+/-- known finding K29: as a MAP VALUE (not addressable) the wrapper's pointer-receiver MarshalJSON is not called
+    and the value comes back as the struct `{"Value": j}` -/
+theorem KF_wrapped_in_map_value (env : Env) (n : String) (d : Decl) (j : Json) (f : Nat)
+    (hres : env.resolve 8 n = some d) (vals : List Json) (ic : Bool) (cs : List (String × String)) (m : Bool)
+    (hb : d.body = .enum vals true ic cs m) (hj : j ≠ .null) :
+    marshal env (f + 2) false (.named n) (.strct [("Value", jsonToIface j)]) = .obj [("Value", j)] := by
   simp only [marshal, hres, hb]
   cases j <;> simp_all [jsonToIface, marshal]
 
 /-- an accepted value of a plain string enum marshals back to the same string -/
-theorem plain_marshal_roundtrip (env : Env) (n : String) (d : Decl) (s : String) (f : Nat)
+theorem plain_marshal_roundtrip (env : Env) (n : String) (d : Decl) (s : String) (f : Nat) (a : Bool)
     (hres : env.resolve 8 n = some d) (vals : List Json) (ic : Bool) (cs : List (String × String)) (m : Bool)
     (hb : d.body = .enum vals false ic cs m) (ht : d.ty = .string) :
-    marshal env (f + 2) (.named n) (.str s) = .str s := by
+    marshal env (f + 2) a (.named n) (.str s) = .str s := by
   simp only [marshal, hres, hb, ht]
 
 /-- known finding: `type: integer` with a fractional member — the table entry is coerced with `int(v)`, so
